@@ -297,6 +297,12 @@ pub fn rand_script<T: PartialEq>(rng: &mut Rng, a: &[T], b: &[T]) -> Vec<Step> {
 pub const RUNS: [usize; 9] = [1, 2, 3, 4, 5, 6, 7, 9, 13];
 
 pub fn rand_oplist(rng: &mut Rng) -> Vec<DiffOp> {
+    rand_oplist_with(rng, false)
+}
+
+/// `adjacent_changes`: a change may be followed directly by another change (op lists that did not go
+/// through the Replace / Compact stages, e.g. what a bare `Capture` records: Insert next to Delete)
+pub fn rand_oplist_with(rng: &mut Rng, adjacent_changes: bool) -> Vec<DiffOp> {
     let nops = rng.below(10);
     let mut ops = Vec::new();
     let (mut o, mut n) = (rng.below(4), rng.below(4));
@@ -345,7 +351,7 @@ pub fn rand_oplist(rng: &mut Rng) -> Vec<DiffOp> {
                 }
             }
         }
-        eq = !eq;
+        eq = if !eq && adjacent_changes && rng.chance(1, 3) { false } else { !eq };
     }
     ops
 }
